@@ -411,6 +411,21 @@ def _read_request(
             does not match ``REQUEST_VERSION``.
 
     """
+    batch, custom_metadata = _read_request_batch(reader_stream, ipc_validation)
+    return _decode_request(batch, custom_metadata, external_config, shm, attach_shm)
+
+
+def _read_request_batch(
+    reader_stream: IOBase | pa.NativeFile,
+    ipc_validation: IpcValidation = IpcValidation.FULL,
+) -> tuple[pa.RecordBatch, pa.KeyValueMetadata | None]:
+    """Read one request IPC stream to its end and return its batch and metadata.
+
+    This is the only part of reading a request that touches the byte
+    stream.  Once it returns, the stream is positioned at the next request,
+    so whatever :func:`_decode_request` then finds wrong with the batch can be
+    answered with an error stream without losing the connection's framing.
+    """
     try:
         reader = ValidatedReader(ipc.open_stream(reader_stream), ipc_validation)
         batch, custom_metadata = reader.read_next_batch_with_custom_metadata()
@@ -430,6 +445,21 @@ def _read_request(
         if isinstance(reader_stream, pa.BufferReader):
             raise pa.ArrowInvalid(str(exc)) from exc
         raise
+    return batch, custom_metadata
+
+
+def _decode_request(
+    batch: pa.RecordBatch,
+    custom_metadata: pa.KeyValueMetadata | None,
+    external_config: ExternalLocationConfig | None = None,
+    shm: ShmSegment | None = None,
+    attach_shm: Callable[[pa.KeyValueMetadata | None], ShmSegment | None] | None = None,
+) -> tuple[str, dict[str, object]]:
+    """Turn a fully-read request batch into ``(method_name, kwargs)``.
+
+    Second half of :func:`_read_request`; see there for the arguments and
+    the exceptions raised.  Consumes no bytes from the transport.
+    """
     _current_request_metadata.set(custom_metadata)
     # Stash the batch for access-log enrichment -- but only when the
     # transport has not already captured the raw wire bytes, which are
